@@ -151,14 +151,54 @@ def entry_runs(tr, ops, pre_listing):
     return runs
 
 
+def probe_runs(tr, ops, pre_listing):
+    """The compiler-vendor probe and the OpenMP flag probe directories, as programs of coq/C08/GModel.v
+    (groups and guards) with the temp ids observed in this trace."""
+    init = {}
+    for p in pre_listing:
+        mp = tr.mpath(p)
+        if mp and mp[0] == "F":
+            init[mp] = "Complete"
+    target = {}
+    for key, k in tr.temps.items():
+        d, name = key.split("/", 1)
+        fin = FT.TEMP_RE.match(name).group(2)
+        target[("T", k)] = ("F", 100 * tr.dirs[d] + FT.role_of(fin, tr.extra))
+    runs = []
+    finals = set(mp for mp in list(tr.names.keys()) + list(init.keys()) if mp[0] == "F")
+    for d in sorted(set(mp[1] // 100 for mp in finals)):
+        roles = set(mp[1] % 100 for mp in finals if mp[1] // 100 == d)
+
+        def fin_of(mp):
+            return mp if mp[0] == "F" else target.get(mp)
+        dops = [o for o in ops if fin_of(o[1]) is not None and fin_of(o[1])[1] // 100 == d]
+
+        def f(role):
+            fin = ("F", 100 * d + role)
+            ks = [mp[1] for mp, t in target.items() if t == fin and any(o[1] == mp for o in dops)]
+            return "(%d, %d)" % (fin[1], ks[0] if ks else 9000 + role)
+        if 10 in roles:
+            prog = "[IGroup true [%s]; IGuard %d; IGroup true [%s; %s]; IGroup false [%s]]" % (
+                f(10), 100 * d + 12, f(5), f(11), f(12))
+            kind = "vendor probe"
+        elif 13 in roles:
+            prog = "[IGroup true [%s]; IGroup true [%s; %s]]" % (f(13), f(5), f(12))
+            kind = "OpenMP flag probe"
+        else:
+            continue
+        einit = [(mp, st) for mp, st in init.items() if mp[1] // 100 == d]
+        runs.append(dict(kind=kind, init=einit, prog=prog, ops=dops, dir=d))
+    return runs
+
+
 def coq_fs(init):
     return "[" + "; ".join("(%s, %s)" % (FT.coq_path(mp), st) for mp, st in sorted(init)) + "]"
 
 
-def write_gen(traces, runs):
+def write_gen(traces, runs, gruns=()):
     os.makedirs(os.path.join(C.COQ, "gen"), exist_ok=True)
     L = ["(* GENERATED by props/C08.py from strace of real builds of this run; do not edit. *)",
-         "From Coq Require Import List NArith Bool.", "From OV.C08 Require Import Model.", "Import ListNotations.",
+         "From Coq Require Import List NArith Bool.", "From OV.C08 Require Import Model GModel.", "Import ListNotations.",
          "Local Open Scope N_scope.", ""]
     for i, (name, ops) in enumerate(traces):
         L.append("(* %s *)" % name)
@@ -169,12 +209,20 @@ def write_gen(traces, runs):
         L.append("Definition run_%d : real_run := {| r_init := %s; r_stages := [%s]; r_bin := %d; r_ops := %s |}." % (
             i, coq_fs(r["init"]), "; ".join("(%d, %d)" % s for s in r["stages"]), r["bin"], FT.coq_ops(r["ops"])))
     L.append("Definition real_runs : list real_run := [%s]." % "; ".join("run_%d" % i for i in range(len(runs))))
+    for i, (name, r) in enumerate(gruns):
+        L.append("(* %s *)" % name)
+        L.append("Definition grun_%d : real_grun := {| rg_init := %s; rg_prog := %s; rg_ops := %s |}." % (
+            i, coq_fs(r["init"]), r["prog"], FT.coq_ops(r["ops"])))
+    L.append("Definition real_gruns : list real_grun := [%s]." % "; ".join("grun_%d" % i for i in range(len(gruns))))
     L += ["",
           "(* every real trace satisfies the hypothesis of theorem crash_safe (from the empty cache) *)",
           "Example real_traces_conform : forallb protocol_ok real_traces = true.",
           "Proof. vm_compute. reflexivity. Qed.",
           "(* on every kernel cache entry the real operations are exactly the model process's *)",
           "Example real_runs_match_model : forallb run_matches_model real_runs = true.",
+          "Proof. vm_compute. reflexivity. Qed.",
+          "(* the probe directories (multi-file staging groups, guards): same publication order and per-temp life cycle as the group model *)",
+          "Example real_probe_runs_match_model : forallb grun_matches_model real_gruns = true.",
           "Proof. vm_compute. reflexivity. Qed.",
           "Example real_traces_nonempty : negb (Nat.eqb (length real_traces) 0) && negb (Nat.eqb (length real_runs) 0) = true.",
           "Proof. vm_compute. reflexivity. Qed.", ""]
@@ -363,7 +411,7 @@ def run(run, tier, seed, replay_case=None):
         scs = scenarios(tier)
         with ThreadPoolExecutor(max_workers=8) as ex:
             results = list(ex.map(lambda a: trace_scenario(exe, base, a[0], *a[1]), list(enumerate(scs))))
-        traces, runs, bad_results, samples = [], [], [], []
+        traces, runs, gruns, bad_results, samples = [], [], [], [], []
         for res in results:
             for name, tr, ops, pre, line in res:
                 traces.append((name, ops))
@@ -371,7 +419,9 @@ def run(run, tier, seed, replay_case=None):
                     bad_results.append((name, line))
                 for r in entry_runs(tr, ops, pre):
                     runs.append((name + " dir %d entry bin=%d" % (r["dir"], r["bin"] % 100), r))
-        write_gen(traces, runs)
+                for r in probe_runs(tr, ops, pre):
+                    gruns.append((name + " dir %d %s" % (r["dir"], r["kind"]), r))
+        write_gen(traces, runs, gruns)
         pr = C.coq_properties(PROP, gen_targets=["gen/C08_traces.vo"])
         run.add_proof(pr, CHECKER)
         run.coverage["trusted_base"] = TRUSTED
@@ -471,6 +521,7 @@ def run(run, tier, seed, replay_case=None):
                        "by (mode, kind, syscall index)")
         cov["traces_validated_against_impl"] = len(traces)
         cov["real_entry_runs_compared_with_model"] = len(runs)
+        cov["real_probe_dir_runs_compared_with_group_model"] = len(gruns)
         cov["single_file_removed_rebuilds"] = len(d1)
         cov["kill_replays"] = len(kills)
         cov["kill_replays_builder_died"] = sum(1 for k in kills if k["killed"])
